@@ -37,7 +37,9 @@ LEVEL_TEXT = ("Unbounded proof: for every condition tree (any depth, any mix of 
               "does - the invariants (edges, unused ids, entry without predecessors) are shown to be kept from one merge "
               "to the next; every chain whose targets are blocks other than block 0 or exits - all the chains the stream runs - meets the "
               "hypotheses (chain_hypotheses), so the graph and entry that obs_struct observes have the walks of the chain "
-              "(struct_keeps_chain_walks). Outside the model (its "
+              "(struct_keeps_chain_walks), a walk of the result never being longer than the walk of the chain; hence the route "
+              "obs_struct computes for an assignment - the result unfolded (blocks + 2) deep - is the chain's exit whenever the "
+              "chain ends within (blocks + 1) steps (observed_route_is_the_chains). Outside the model (its "
               "leaf is an abstract comparison): the same chains over every kind of comparison a block can hold (zero tests "
               "with all six operators, boolean and null tests, two-register tests, cmp-long / cmpl / cmpg results tested "
               "against zero), evaluated with operand values under Java's precedence; and compound conditions (random "
